@@ -19,19 +19,19 @@ pub const fn kind_of(f: &str) -> u8 {
 #[derive(Copy, Clone, PartialEq, Eq)]
 pub struct Line { pub kind: u8, pub mv: Option<Move>, pub depth: u8, pub score: i32, pub nodes: u64 }
 pub const MAXLINES: usize = 12;
+pub struct OutState { pub magic: u64, pub nlines: usize, pub overflow: bool, pub last_rendered: Option<Move> }
+/// (one struct with a sentinel field: see the note on static/constant aliasing in envmodel.rs)
+pub static mut OUT: OutState = OutState { magic: 0x5EED_0007_0BAD_F00D, nlines: 0, overflow: false, last_rendered: None };
 pub static mut LINES: [Line; MAXLINES] = [Line { kind: 0, mv: None, depth: 0, score: 0, nodes: 0 }; MAXLINES];
-pub static mut NLINES: usize = 0;
-pub static mut OVERFLOW: bool = false;
 /// the move most recently rendered by Move::to_algebraic (set by the to_algebraic stub under Kani;
 /// natively recovered by parsing the rendered text back against the abstract root's moves)
-pub static mut LAST_RENDERED: Option<Move> = None;
-pub fn reset() { unsafe { NLINES = 0; OVERFLOW = false; LAST_RENDERED = None; } }
-pub fn push(l: Line) { unsafe { if NLINES < MAXLINES { LINES[NLINES] = l; NLINES += 1; } else { OVERFLOW = true; } } }
-pub fn n() -> usize { unsafe { NLINES } }
+pub fn reset() { unsafe { OUT.nlines = 0; OUT.overflow = false; OUT.last_rendered = None; } }
+pub fn push(l: Line) { unsafe { if OUT.nlines < MAXLINES { LINES[OUT.nlines] = l; OUT.nlines += 1; } else { OUT.overflow = true; } } }
+pub fn n() -> usize { unsafe { OUT.nlines } }
 pub fn line(i: usize) -> Line { unsafe { LINES[i] } }
 pub fn info(d: u8, s: i32, nodes: u64, m: Option<Move>) { push(Line { kind: K_INFO, mv: m, depth: d, score: s, nodes }); }
 pub fn text(kind: u8, has_args: bool) {
-    let mv = if kind == K_BESTMOVE && has_args { unsafe { LAST_RENDERED } } else { None };
+    let mv = if kind == K_BESTMOVE && has_args { unsafe { OUT.last_rendered } } else { None };
     push(Line { kind, mv, depth: 0, score: 0, nodes: 0 });
 }
 pub fn count(kind: u8) -> usize {
